@@ -43,6 +43,13 @@ def obligations(tier, ctx):
                       backend="P", timeout=300, family="size: error data of every length c-1, c, c+1"))
         obs.append(Ob(name=f"api_long_p{pat}", params=[("k", "int")], pre=[f"0 <= k < {nsz}"], call=f"H.api_long(-32602, k, {pat})",
                       backend="P", timeout=300, family="size: error message of every length c-1, c, c+1 for the integer constants c of the source"))
+    from harness_sizes_n import N_TEXTS
+    for code in (-32601, -32603):
+        for be in ("P", "F"):
+            obs.append(Ob(name=f"process_text_c{abs(code)}_{be}", params=[("i", "int"), ("d", "bool")], pre=[f"0 <= i < {N_TEXTS}"], call=f"H.process_text({code}, i, d)", backend=be, timeout=300,
+                          family="content corpus: error message / data that is a %-template, a format template, has separators, BOM, looks like JSON or a number, ..."))
+    obs.append(Ob(name="api_text", params=[("i", "int")], pre=[f"0 <= i < {N_TEXTS}"], call="H.api_text(-32602, i)", backend="P", timeout=300,
+                  family="content corpus: error message / data that is a %-template, a format template, has separators, BOM, looks like JSON or a number, ..."))
     for n in discover(ctx):
         obs.append(Ob(name="helper_" + n, params=[("code", "int")], pre=[], call=f"H.helper({n!r}, code)", backend="F", timeout=240, family="helper"))
     return obs
